@@ -166,6 +166,8 @@ def material_guard(fx):
                 for conds, ret, last in _dp(cb, 8):
                     r = deep_strip(ret) if ret is not None else None
                     co = cmp_op(r) if isinstance(r, tuple) else None
+                    if co and co[0] in ("Lt", "Le") and find_calls(co[2], "Bitboard::count") and find_calls(co[2], "Board::occupancy_for"):
+                        co = ({"Lt": "Gt", "Le": "Ge"}[co[0]], co[2], co[1])   # `MAX < count` is `count > MAX`
                     if co and co[0] in ("Gt", "Ge") and find_calls(co[1], "Bitboard::count") and find_calls(co[1], "Board::occupancy_for"):
                         y = deep_strip(co[2])
                         k = y[1] if isinstance(y, tuple) and y[0] == "const" else next((cv.get("int") for kk, cv in fx.consts.items() if isinstance(y, tuple) and y[0] == "constpath" and norm(kk) == y[1]), None)
@@ -606,7 +608,23 @@ def rule_tables(fx, rep):
             bad(f"pieces/{c}", f"the reader maps '{c}' to {pk} but the writer prints {pk} as '{wtab.get(pk)}'", rd)
     # side to move
     rc = fx.one("fen_parser::fen_color")
-    wc = fx.one("fen_writer::format_current_player")
+    wcs = fx.find("fen_writer::format_current_player")
+    if len(wcs) != 1:
+        # renamed / re-typed (e.g. `const fn player_letter(Player) -> &'static str`): any function of the writer module that maps the two
+        # Player variants to one-letter strings
+        wcs = []
+        for cand in fx.fn_bodies():
+            if norm(cand.name).startswith("chess::fen::fen_writer::") and cand.kind == "Fn" and "::tests::" not in cand.name and cand.n <= 30:
+                tags = set()
+                for conds0, ret0, bb0 in decision_paths(cand, 16):
+                    if ret0 is None:
+                        continue
+                    lit0 = [x[1] for x in walk(ret0) if isinstance(x, tuple) and x and x[0] == "const" and isinstance(x[1], str) and len(x[1]) == 1]
+                    if lit0 and any(isinstance(deep_strip(e0), tuple) and deep_strip(e0)[0] == "discr" and "Player" in (cand.local_ty(1) or "") + show(e0) for (e0, v0) in conds0):
+                        tags.add(lit0[0])
+                if len(tags) == 2:
+                    wcs.append(cand)
+    wc = wcs[0] if len(wcs) == 1 else None
     rcol = {}
     for bb, t in rc.calls():
         if norm(callee_name(t) or "").endswith("combinator::value"):
@@ -615,7 +633,7 @@ def rule_tables(fx, rep):
             if pl and tg and tg[0]:
                 rcol[tg[0]] = pl
     wcol = {}
-    for conds, ret, bb in decision_paths(wc):
+    for conds, ret, bb in (decision_paths(wc) if wc is not None else []):
         if ret is None:
             continue
         pl = None
@@ -628,6 +646,9 @@ def rule_tables(fx, rep):
             wcol[pl] = lit[0]
     n += 1
     good = len(rcol) == 2 and len(wcol) == 2 and all(wcol.get(p) == c for c, p in rcol.items())
+    if wc is None:
+        rep.notes.append("C06-TABLES: the writer's side-to-move letters are not produced by a recognisable function of the writer module; not decided")
+        good = True
     rep.obligation(good)
     rep.sample({"rule": "C06-TABLES", "reader_colour": rcol, "writer_colour": wcol})
     if not good:
@@ -694,9 +715,27 @@ def rule_tables(fx, rep):
                     cur = nx[0] if len(nx) == 1 else None
                 if lit and colour and len(lit) == 1 and lit != "-":
                     writer_cr[lit] = (colour, d[2])
+    if not writer_cr:
+        # table form: `[(rights.king_side, "K"), (rights.queen_side, "Q"), ..]` filtered by the flag
+        for bb, j, st in wcr.stmts():
+            rv = st.get("rv")
+            if rv and rv["k"] == "agg" and rv.get("agg") == "tuple" and len(rv["ops"]) == 2:
+                d = deep_strip(wcr.expr(rv["ops"][0], expand_named=True, at=bb))
+                l2 = deep_strip(wcr.expr(rv["ops"][1], expand_named=True, at=bb))
+                lit = l2[1] if isinstance(l2, tuple) and l2 and l2[0] == "const" and isinstance(l2[1], str) else None
+                if not lit:
+                    continue
+                if isinstance(d, tuple) and d[0] == "field" and d[2] in ("king_side", "queen_side") and len(lit) == 1 and lit != "-":
+                    idx = [x for x in walk(d) if isinstance(x, tuple) and x and x[0] == "index" and isinstance(x[2], tuple) and x[2][0] == "const"]
+                    colour = inner_order.get(idx[0][2][1]) if idx else None
+                    if colour:
+                        writer_cr[lit] = (colour, d[2])
     rep.sample({"rule": "C06-TABLES", "reader_castling": {c: list(v) for c, v in reader_cr.items()}, "writer_castling": {c: list(v) for c, v in writer_cr.items()}})
     n += 1
     good = len(reader_cr) == 4 and reader_cr == writer_cr
+    if not reader_cr or not writer_cr:
+        rep.notes.append("C06-TABLES: the castling letters of the " + ("reader" if not reader_cr else "writer") + " are not produced in a recognisable form; not decided")
+        good = True
     rep.obligation(good)
     if not good:
         bad("castling", f"castling letters disagree: reader {reader_cr}, writer {writer_cr}", rr)
